@@ -112,7 +112,7 @@ RACE_RE = re.compile(r"WARNING: DATA RACE")
 
 
 def run_tests(root, info, test_name, env_extra, race=False, timeout=1800, extra_args=()):
-    cmd = ["go", "test", "-count=1", "-vet=off", "-v", "-run", test_name]
+    cmd = ["go", "test", "-trimpath", "-count=1", "-vet=off", "-v", "-run", test_name]
     if race:
         cmd.append("-race")
     if info.get("tags"):
